@@ -242,12 +242,27 @@ func check(prop, tier string, writeLock bool, filter string) int {
 		if filter != "" && !strings.Contains(fc.Key, filter) {
 			continue
 		}
+		if g.fnOf[fc] == nil && fc.ClosedWorld {
+			continue // interface / external method: only its callers are checked
+		}
 		vc, err := g.verifyFunc(fc)
 		if err != nil {
 			genErrs = append(genErrs, fmt.Sprintf("%s: %v", shortKey(fc.Key), err))
 			continue
 		}
 		funcsUnder = append(funcsUnder, shortKey(fc.Key))
+		vcs = append(vcs, vc)
+		obls = append(obls, vc.obls...)
+	}
+	// closed-world obligations: every caller of a function whose contract says "closedworld" is under contract
+	for _, fc := range g.allFC {
+		if !fc.ClosedWorld || !hasProp(fc.Props, prop) {
+			continue
+		}
+		if filter != "" && !strings.Contains(fc.Key, filter) {
+			continue
+		}
+		vc := g.closedWorldVC(fc)
 		vcs = append(vcs, vc)
 		obls = append(obls, vc.obls...)
 	}
